@@ -891,12 +891,18 @@ func deepGet(m map[string]any, keys ...string) (any, bool) {
 func deepSet(m map[string]any, keys []string, value any) {
 	for i := 0; i < len(keys)-1; i++ {
 		key := keys[i]
-		if _, ok := m[key]; !ok {
-			m[key] = make(map[string]any)
+		next, ok := m[key].(map[string]any)
+		if !ok {
+			// absent, or set as a plain value by another query key: the nested form wins
+			next = make(map[string]any)
+			m[key] = next
 		}
-		m = m[key].(map[string]any)
+		m = next
 	}
-	m[keys[len(keys)-1]] = value
+	last := keys[len(keys)-1]
+	if _, nested := m[last].(map[string]any); !nested {
+		m[last] = value
+	}
 }
 
 func findNestedSchema(parentSchema *openapi3.SchemaRef, keys []string) (*openapi3.SchemaRef, error) {
